@@ -510,6 +510,18 @@ def dynamic_docs(t):
                 if t == "thorough":
                     docs.append(("sem:dyn-probability:" + lab_, dynamic_doc(prob=e), "xml"))
                     docs.append(("sem:dyn-simulate:" + lab_, dynamic_doc(query="simulate [<=10] { %s }" % e), "xmlq"))
+    # announcement and definition with every pair of parameter lists (fewer, more, other names, other kinds, text that stops parsing)
+    plists = ["", "int a", "int a, int b", "int b, int a", "const int a", "int &a", "clock a", "int a[2]", "int a; int b", "int a,", "nosuch a", "int a, int a"]
+    for ann in plists[:9]:
+        for dfn in plists:
+            g = "dynamic DW(%s); int i;" % ann
+            d = X.template("DW", params=dfn or None, decl="int dl;", locations=[X.location("d0", "A"), X.location("d1", "B")], init="d0",
+                           transitions=[X.transition("d0", "d1", guard="dl >= 0" if "a" not in dfn else "dl >= 0 && i >= 0")])
+            m_ = X.template("Main", locations=[X.location("id0", "L0")], init="id0", transitions=[X.transition("id0", "id0", assign="i = 1")])
+            docs.append(("sem:dyn-params:%s|%s" % (ann, dfn), X.nta(g, [d, m_], "system Main;"), "xml"))
+            if t == "thorough" or (len(ann) + len(dfn)) % 3 == 0:
+                docs.append(("sem:dyn-params-xta:%s|%s" % (ann, dfn), g + "\nprocess DW(%s) { int dl; state A, B; init A; trans A -> B { guard dl >= 0; }; }\n"
+                             "process Main() { state L0; init L0; }\nsystem Main;\n" % dfn, "xta"))
     for op in DYN_OPS:
         docs.append(("sem:dyn-op-assignment:" + op, dynamic_doc(assign=op), "xml"))
         docs.append(("sem:dyn-op-in-dynamic-template:" + op, dynamic_doc(wassign=op), "xml"))
